@@ -580,3 +580,40 @@ def r8(ctx):
                f"when connect() runs the connection's timeout is {cs[0].args[0]!r}, not {want!r}: every socket tried and the whole opening handshake run without the configured timeout",
                cs[0].loc or loc)
 
+
+
+@rule("R-C18-9", min_instances=3, title="the configured timeout belongs to the connection options, not to one connection: close() and shutdown() leave sock_opt.timeout as configured, so a later connect() on the same object puts the configured value (not the 3 s close-handshake wait) on every socket it tries")
+def r9(ctx):
+    from .c08 import _interp, _ws, W
+    I = _interp(ctx)
+    loc = ctx.index.loc(ctx.index.func(f"{W}.close").node)
+
+    def plant(run, ws):
+        so = run.cell(ws).fields.get("sock_opt")
+        if not isinstance(so, Ref):
+            raise AnalysisError("WebSocket.sock_opt is not an object")
+        run.cell(so).fields["timeout"] = Sym("configured_timeout", "obj")
+        return so
+
+    for label, connected, call in (("close()", True, ("close", [C(1000), Sym("reason", "bytes"), Sym("close_wait", "int")])),
+                                   ("close() when already unconnected", False, ("close", [])), ("shutdown()", True, ("shutdown", []))):
+        def body(run, connected=connected, call=call):
+            ws = _ws(I, run, connected)
+            so = plant(run, ws)
+            run.memo["@so"] = so
+            I.call(run, I.getattr(run, ws, call[0], None), list(call[1]), {}, None)
+            return so
+        outs = ctx.count_paths(I.explore(body))
+        bad = None
+        for o in outs:
+            so = o.run.memo.get("@so")
+            if so is None:
+                continue
+            now = o.run.cell(so).fields.get("timeout")
+            if now != Sym("configured_timeout", "obj"):
+                bad = bad or (now, o)
+        if not outs:
+            raise AnalysisError(f"{label}: no path explored")
+        ctx.ob(f"{W}:{label}:configured-timeout-kept", bad is None, f"{len(outs)} paths: sock_opt.timeout is untouched" if bad is None else
+               f"after {label} the object's configured timeout (sock_opt.timeout, applied by _open_socket to every socket of the next connect) is {bad[0]!r} instead of the "
+               f"configured value: the next connection on this object is attempted with the close-handshake wait as its timeout", loc, {"path": path_text(bad[1])} if bad else None)
